@@ -473,6 +473,16 @@ pub fn check_main(prop: &str, tier: &str) -> i32 {
     }
     for (id, (cnt, what)) in &known_for_prop {
         let entry = known.iter().find(|k| k.id == *id && k.property == prop).unwrap();
+        if id == "hidden-left-recursion" {
+            // Tables with such a loop are never run in-process; the canonical scenario is executed
+            // for real in a guarded child on every run, so that this line disappears if the LR
+            // driver ever learns to terminate on it.
+            let st = run_guarded(&exe, &["r-canon"], 30.0);
+            if st == Some(0) {
+                println!("NOTE: the canonical hidden-left-recursion scenario now returns normally; {cnt} scenarios with a reduction loop in their table were skipped - known_findings.json should be revisited");
+                continue;
+            }
+        }
         known_lines.push(format!("KNOWN-FINDING: property={prop} id={id} occurrences={cnt} {} -- e.g. {what}", entry.what));
     }
     let mut other_props = 0u64;
@@ -624,6 +634,20 @@ pub fn run_guarded(exe: &Path, args: &[&str], limit_s: f64) -> Option<i32> {
             }
             Err(_) => return None,
         }
+    }
+}
+
+/// `sim r-canon`: the canonical hidden-left-recursion scenario under a 2 GB address-space limit.
+pub fn canon_main() -> i32 {
+    unsafe {
+        let lim = libc::rlimit { rlim_cur: 2 << 30, rlim_max: 2 << 30 };
+        libc::setrlimit(libc::RLIMIT_AS, &lim);
+    }
+    std::panic::set_hook(Box::new(|_| {}));
+    if crate::engine_r::run_canonical_loop() {
+        0
+    } else {
+        4
     }
 }
 
